@@ -6,6 +6,7 @@ from hypothesis import strategies as st
 from harness import gen, model, scenario, vclock
 from harness.core import Check, Outcome, SubCheck
 from harness.scenario import _params_of
+from harness.checks.c02_burst import burst_case, run_burst
 
 TERMINAL = ("ack", "nack", "reject", "requeue")
 
@@ -169,5 +170,6 @@ CHECK = Check(
         SubCheck("mem", _strategy(("mem",)), run, quick=120, thorough=2500),
         SubCheck("redis", _strategy(("redis",)), run, quick=40, thorough=800),
         SubCheck("amqp", _strategy(("amqp",)), run, quick=40, thorough=800),
+        SubCheck("sync-burst", burst_case, run_burst, quick=2, thorough=40),
     ],
 )
